@@ -104,13 +104,16 @@ def render(c, mutable):
     elif k == "ref_local":
         pre = ["let p0: P = %s;" % PLIT, "let x: %sP = %sp0;" % (rf, rf)]
     inner = wrap_ctx(ctx, mut, 1)
-    if k == "for_index":
+    if k.startswith("for_index"):
+        decl = {"for_index": "let arr: []i32 = [1, 2, 3];", "for_index_blank": "let arr: []i32 = [1, 2, 3];",
+                "for_index_str": 'let arr: str = "abc";', "for_index_fixed": "let arr: [3]i32 = [1, 2, 3];"}[k]
+        second = "_" if k == "for_index_blank" else "v"
         if mutable:
             loop_body = wrap_ctx(ctx, ["let x: i32 = i0;"] + mut, 2) if ctx in ("plain", "method") else \
                 ["        let x: i32 = i0;"] + wrap_ctx(ctx, mut, 2)
-            body = ["    let arr: []i32 = [1, 2, 3];", "    for i0, v in arr {"] + loop_body + ["    }"]
+            body = ["    " + decl, "    for i0, %s in arr {" % second] + loop_body + ["    }"]
         else:
-            body = ["    let arr: []i32 = [1, 2, 3];", "    for x, v in arr {"] + wrap_ctx(ctx, mut, 2) + ["    }"]
+            body = ["    " + decl, "    for x, %s in arr {" % second] + wrap_ctx(ctx, mut, 2) + ["    }"]
     elif k == "catch_err":
         if mutable:
             hb = ["        let x: str = e0;"] + wrap_ctx(ctx, mut, 2)
@@ -169,11 +172,13 @@ def run(tier, seed, replay=None):
     obs = pool.compile_many(jobs)
     n_void = n_rej = 0
     void_examples = []
+    void_kinds = {}
     nontriv = set()
     for i, c in enumerate(cases):
         cs, ctl = obs[2 * i], obs[2 * i + 1]
         if ctl["cls"] != "ACCEPT":
             n_void += 1
+            void_kinds[c["kind"]] = void_kinds.get(c["kind"], 0) + 1
             if len(void_examples) < 8:
                 void_examples.append({"key": c["key"], "control": ctl["cls"],
                                       "msg": [e["msg"][:80] for e in ctl["errors"]][:2]})
@@ -193,7 +198,7 @@ def run(tier, seed, replay=None):
                              % (n_void, len(cases), void_examples[:3]))
     chk.cov.update({
         "states": res["distinct"], "transitions": res["states"], "traces_validated_against_impl": len(cases) - n_void,
-        "cases": len(cases), "rejected_as_required": n_rej, "void_controls": n_void,
+        "cases": len(cases), "rejected_as_required": n_rej, "void_controls": n_void, "void_controls_by_kind": void_kinds,
         "void_control_examples": void_examples,
         "evaluations": 2 * len(cases), "distinct_nontrivial": len(nontriv), "exhaustive": True,
         "rule": "full product of 11 immutable binding kinds x 8 access paths x 7 mutation forms x 6 contexts restricted "
